@@ -1,23 +1,23 @@
-import Gribi.Drv.RibDrv
+import Gribi.Drv.SrvDrv
 open Gribi Gribi.Drv
 
-/-- which family of traces a line belongs to is decided by its first token's prefix -/
-partial def loop (h : IO.FS.Stream) (out : IO.FS.Stream) (st : RibSt) : IO Unit := do
+partial def loop (h : IO.FS.Stream) (out : IO.FS.Stream) (st : SrvSt) : IO Unit := do
   let line ← h.getLine
   if line.isEmpty then
     out.flush
     return ()
   let ts := tokens line
-  let st := ribLine st ts
+  let st := srvLine st ts
   match ts with
   | cmd :: _ =>
     if tokStr cmd = "end" then
-      for l in st.out.reverse do out.putStrLn l
-      let covs := st.cov.map (fun e => s!"{e.1}={e.2}")
+      let rs := st.rs
+      for l in rs.out.reverse do out.putStrLn l
+      let covs := rs.cov.map (fun e => s!"{e.1}={e.2}")
       out.putStrLn ("COV " ++ " ".intercalate covs)
-      out.putStrLn s!"END trace={st.name} diffs={st.diffs} monfails={st.monfails} lines={st.line}"
+      out.putStrLn s!"END trace={rs.name} diffs={rs.diffs} monfails={rs.monfails} lines={rs.line}"
       out.flush
-      loop h out { st with out := [], cov := [], diffs := 0, monfails := 0 }
+      loop h out { st with rs := { rs with out := [], cov := [], diffs := 0, monfails := 0 } }
     else loop h out st
   | [] => loop h out st
 
